@@ -115,6 +115,28 @@ def run(tier):
                         g["dupmember"] = True
                         dups.append(g)
                         done = True
+    # variants in which two members of one (unfiltered) object stream with DIFFERENT numbers claim the SAME offset: an
+    # offset names at most one object, and which of the two numbers gets it must not depend on the schedule
+    sameoff = []
+    for f in files:
+        b = bytes(f["bytes"])
+        done = False
+        for hm in re.finditer(rb"stream\r?\n((?:\d+[ \t\x0c\x00]+\d+[ \r\n\t\x0c\x00]+){2,})", b):
+            pairs = list(re.finditer(rb"(\d+)[ \t\x0c\x00]+(\d+)[ \r\n\t\x0c\x00]+", hm.group(1)))
+            for i in range(len(pairs)):
+                for j in range(i + 1, len(pairs)):
+                    oi, oj = pairs[i].group(2), pairs[j].group(2)
+                    if len(oi) == len(oj) and oi != oj and pairs[i].group(1) != pairs[j].group(1) and not done:
+                        st = hm.start(1) + pairs[j].start(2)
+                        g = dict(f)
+                        g["bytes"] = list(b[:st] + oi + b[st + len(oj):])
+                        g["sameoffset"] = True
+                        sameoff.append(g)
+                        done = True
+    sameoff = sameoff[:20 if tier == "quick" else 150]
+    chk.extra["variants_with_two_members_at_one_offset"] = len(sameoff)
+    if len(sameoff) < 3:
+        raise vlib.ToolError("vacuous: fewer than 3 variants with two members of an object stream at one offset")
     # variants in which the header of the second object stream carries the NUMBER OF THE FIRST one (the cross-reference
     # entries still lead to both): a loader that keys the blocks by header number must break the tie independently of
     # which worker finishes first
@@ -184,7 +206,7 @@ def run(tier):
     chk.extra["integer_object_variants"] = len(ivars[:12 if tier == "quick" else 100])
     if len(dups) < 3:
         raise vlib.ToolError("vacuous: fewer than 3 variants with a duplicated member number inside one object stream")
-    files = files + dups[:20 if tier == "quick" else 150] + samehdr
+    files = files + dups[:20 if tier == "quick" else 150] + samehdr + sameoff
     chk.extra["files_with_duplicate_member_in_one_stream"] = len(dups[:20 if tier == "quick" else 150])
     if sum(1 for f in files if f["ncomp"] >= 2) < 10:
         raise vlib.ToolError("vacuous: fewer than 10 generated files with >= 2 object streams")
@@ -226,7 +248,7 @@ def run(tier):
             forced += v["v"] == "ok-forced-order"
         else:
             chk.violation("C08:" + v["v"], {"schedule": {k: rec.get(k) for k in ("kind", "threads", "rep", "order", "observed", "filter", "sched", "dropset", "ids")},
-                                            "hash": rec["hash"], "seqhash": rec["seqhash"], "knobs": {k: f.get(k) for k in ("xref", "nrevs", "ncomp", "redefined", "ghost", "dupmember", "samehdr", "nolength")},
+                                            "hash": rec["hash"], "seqhash": rec["seqhash"], "knobs": {k: f.get(k) for k in ("xref", "nrevs", "ncomp", "redefined", "ghost", "dupmember", "samehdr", "nolength", "sameoffset")},
                                             "bytes": f["bytes"]})
     if forced < 50 and not chk.violations:
         raise vlib.ToolError("vacuous: only %d loads with a forced completion order" % forced)
